@@ -531,9 +531,22 @@ func TestVfStreamsStress(t *testing.T) {
 					if len(mine) > 0 && r.Intn(2) == 0 {
 						id := mine[len(mine)-1]
 						mine = mine[:len(mine)-1]
+						// sometimes a second release path races on the same id (helper thread th+nthreads);
+						// the owner waits for it before it acquires again
+						var hw sync.WaitGroup
+						if r.Intn(3) == 0 {
+							hw.Add(1)
+							go func() {
+								defer hw.Done()
+								logEv(vfLinEvent{T: th + nthreads, Ev: "call_clear", Id: id})
+								ok := g.Clear(id)
+								logEv(vfLinEvent{T: th + nthreads, Ev: "ret_clear", Id: id, Ok: ok})
+							}()
+						}
 						logEv(vfLinEvent{T: th, Ev: "call_clear", Id: id})
 						ok := g.Clear(id)
 						logEv(vfLinEvent{T: th, Ev: "ret_clear", Id: id, Ok: ok})
+						hw.Wait()
 					} else {
 						logEv(vfLinEvent{T: th, Ev: "call_get"})
 						id, ok := g.GetStream()
@@ -562,7 +575,7 @@ func TestVfStreamsStress(t *testing.T) {
 		w := bufio.NewWriter(f)
 		enc := json.NewEncoder(w)
 		enc.Encode(map[string]interface{}{"seq": 0, "t": -1, "ev": "init", "id": 0, "ok": true, "free": initFree,
-			"n": g.NumStreams, "threads": nthreads, "avail": len(free)})
+			"n": g.NumStreams, "threads": 2 * nthreads, "avail": len(free)})
 		for _, e := range evs {
 			enc.Encode(e)
 		}
